@@ -114,6 +114,17 @@ func VH_D_Enqueue() {
 		cnt := vx.Itoa(int64(s.Task.Counter))
 		vx.Assert(vx.And(s.ClaimHref == url+"/tasks/claim/"+s.Task.Id+"/"+cnt, s.CompleteHref == url+"/tasks/complete/"+s.Task.Id+"/"+cnt,
 			s.HeartbeatHref == url+"/tasks/heartbeat/"+s.Task.Id+"/"+cnt), "C08:message-names-task-id-and-counter")
+		// the promise that travels with the hand-off (the notification's payload) is the task's own root promise as
+		// stored when this cycle read it (second store round trip), or absent when the root is not stored
+		if vx.YieldKind(1) == "store" && vx.YieldFault(1) == "" {
+			prow := vx.Lookup(vx.YieldPost(1), "promises", row.Str("root_promise_id"))
+			if s.Promise == nil {
+				vx.Assert(!prow.Present(), "C19:notification-carries-the-stored-root-promise")
+			} else {
+				vx.Assert(vx.And(prow.Present(), s.Promise.Id == row.Str("root_promise_id"), vhBodyIsRow(s.Promise, prow)), "C19:notification-carries-the-stored-root-promise")
+			}
+		}
+		vx.Assert(vx.And(s.Task.RootPromiseId == row.Str("root_promise_id"), s.Task.Timeout == row.Int("timeout"), vx.BytesEq(s.Task.Recv, row.Bytes("recv"))), "C19:message-carries-the-stored-task")
 		for k := 0; k < vx.NSlots("tasks"); k++ {
 			o := vx.Slot(read, "tasks", k)
 			vx.Assert(vx.Not(vx.And(o.Present(), o.Str("root_promise_id") == row.Str("root_promise_id"), vx.Or(o.Int("state") == 2, o.Int("state") == 4))), "C08:no-dispatch-while-sibling-enqueued-or-claimed")
